@@ -669,4 +669,35 @@ theorem sublist_ext {l t1 t2 : List Nat} (hnd : l.Nodup) (h1 : t1.Sublist l) (h2
 
 end
 
+/-- `Good` in terms of an order `le` that the test `ok` decides (on the events satisfying `B`) -/
+theorem good_iff (ok : EventSet → Nat → Bool) (le : Nat → Nat → Prop) (B : Nat → Prop)
+    (hok : ∀ c e, (∀ x ∈ c, B x) → (ok c e = true ↔ ∀ x ∈ c, ¬ le e x)) :
+    ∀ (s c : List Nat), (∀ x ∈ c, B x) → (∀ x ∈ s, B x) →
+      (Good ok c s ↔ (∀ e ∈ s, ∀ x ∈ c, ¬ le e x) ∧ s.Pairwise (fun a b => ¬ le b a)) := by
+  intro s
+  induction s with
+  | nil => intro c _ _; simp [Good]
+  | cons e s ih =>
+    intro c hc hs
+    have hc' : ∀ x ∈ c ++ [e], B x := by
+      intro x hx
+      rcases List.mem_append.mp hx with h | h
+      · exact hc x h
+      · simp at h; subst h; exact hs _ (by simp)
+    rw [Good, hok c e hc, ih (c ++ [e]) hc' (fun x hx => hs x (by simp [hx])), List.pairwise_cons]
+    constructor
+    · rintro ⟨h1, h2, h3⟩
+      refine ⟨?_, ?_, h3⟩
+      · intro e' he' x hx
+        rcases List.mem_cons.mp he' with rfl | he'
+        · exact h1 x hx
+        · exact h2 e' he' x (by simp [hx])
+      · intro b hb; exact h2 b hb e (by simp)
+    · rintro ⟨h1, h2, h3⟩
+      refine ⟨fun x hx => h1 e (by simp) x hx, ?_, h3⟩
+      intro e' he' x hx
+      rcases List.mem_append.mp hx with hx | hx
+      · exact h1 e' (by simp [he']) x hx
+      · simp at hx; subst hx; exact h2 e' he'
+
 end SgVerif.C44
